@@ -280,7 +280,11 @@ def run(chk):
             if d == "self._node.set_data":
                 n_store += 1
                 kw = {k.arg: folder.try_fold(k.value, Scope(hf.mod), None) for k in c.keywords}
-                pos = folder.try_fold(c.args[3], Scope(hf.mod), None) if len(c.args) > 3 else None
+                # a positional argument is bound by LocalNode.set_data's own parameter list (a parameter inserted in front of
+                # check_writable shifts what a positional `True` means)
+                sd_f = repo.func(LN, "LocalNode.set_data", "C06.R10")
+                cw_at = sd_f.params.index("check_writable") - 1 if "check_writable" in sd_f.params else None
+                pos = folder.try_fold(c.args[cw_at], Scope(hf.mod), None) if cw_at is not None and len(c.args) > cw_at and not any(isinstance(a_, ast.Starred) for a_ in c.args) else None
                 chk.check(kw.get("check_writable") is True or pos is True, "R10", f"{SV}:SdoServer.{hn} | remote write checked against the access type", hf.loc(c),
                           f"`{src(c)[:80]}` stores without check_writable=True: a read-only or constant entry is overwritten instead of answered with 0x06010002")
             elif d in ("self.download", "self.upload") and hn not in ("download", "upload"):
